@@ -8,6 +8,15 @@ R = {
  "C01-h": (8, False, "T4-predicates `walk closed only at e == d` (the 2-orbit walk has no second exit; C01, C02)", "an (i,i+1)-orbit that is a chain covering more than half of the symbol whose smallest chamber is two or more steps from both ends: <1.1:5:3 2 5,2 4 5,1 2 3 4 5:5,4 4 3>"),
  "C06-h": (8, True, "reported by T10 (frozen loop structure of next_undefined) and the operation-index loop floor", "size >= 4 in dimension >= 2: row d0 + 1 complete while a later row still has gaps"),
  "C08-h": (8, False, "C08 T9-boundary-shape: what is sorted are the best_cyclic-normalised components (pushes into the sorted list are best_cyclic(..))", "two boundary components, one with several corner orders, the other between two of its rotations: *32*3 vs *3*32 at 6 chambers"),
+ "C18-h": (8, False, "C18 T4-determinant-sign (swap counter 0, +1 on the path that exchanges rows pr and row of both matrices under pr != row; determinant negated iff nr_swaps odd, evaluated)", "n >= 4 and a pivot 2 or 4 rows below the current row: det of the permutation matrix (0 2) in S4 is +1"),
+ "C19-h": (8, True, "", "two consecutive vertex labels a < b with max N(a) == min N(b) and an augmenting path stepping b -> x"),
+ "C14-h": (8, True, "", "a relator list containing the empty word (a zero row)"),
+ "C20-h": (8, False, "C20 T3-registration-complete (get_index: lookup through the index map only; index.insert(a, slot), elements, rank, parent pushes all on every registering path)", "the 9th distinct element of a generic Partition first seen as an argument of unite"),
+ "C13-h": (8, True, "", "a generator that occurs only in a one-letter relator"),
+ "C12-h": (8, True, "", "F_2 at index 4: a table whose only smaller renumbering starts at row 1"),
+ "C16-h": (8, False, "C16 T4-network-cut-flow (fresh source / sink, marked = (1,2)-orbits of cut_with_insides(min cut), special = orbit([0,1], op(3, d)) of the PARTNER face, start on the rim of the marked set)", "a cover that needs a split-and-glue cut touching the partner face, depending on the numbering: 21 of 216 symbols of size <= 5"),
+ "C17-h": (8, True, "reported by T4-graph-labels, written from the mutation probe an hour earlier", "a point whose stabiliser is exactly the inversion group (label 1x): 2- and 3-sheeted covers of some size-4 euclidean symbols"),
+ "C11-h": (8, True, "reported by the C12 check (expanded_relator_set is shared); the rule now also runs under C11", "a presentation with a single-letter relator"),
  "C07-h": (8, True, "", "a D-set automorphism that moves two orbit pairs, the first with equal values: 3 D-sets of size 6"),
 }
 for sid, (rnd, first, strength, needs) in R.items():
